@@ -70,6 +70,21 @@ pub fn main(path: &str) -> i32 {
     let b = run_case(&prop, &case);
     match (a, b) {
         (Ok(a), Ok(b)) => {
+            if a != b && prop == "C14" {
+                // for C14 two executions of the same case that differ ARE the violation
+                let mut all = a.clone();
+                for x in b {
+                    if !all.contains(&x) {
+                        all.push(x);
+                    }
+                }
+                for (k, w) in &all {
+                    println!("  {}: {}", k, w);
+                }
+                println!("  C14/replays-disagree: two replays of this case gave different findings");
+                println!("VIOLATION property={} replay={}", prop, path);
+                return 1;
+            }
             if a != b {
                 eprintln!("MACHINERY: two replays of the same case disagree (non-determinism; see C14): {:?} vs {:?}", a, b);
                 return 2;
